@@ -125,9 +125,31 @@ def is_lit_key(key):
 SIMPLE_KEY_TYPES = {"tstr", "text", "uint", "int", "nint", "bstr", "bytes", "any"}
 
 
+def key_class(key):
+    """coarse key domain of a member: ('lit', kind, value) or ('ty', class) with class in T(ext) I(nt) B(ytes) A(ny)"""
+    if key is None:
+        return ("ty", "A")
+    if key[0] == "lit":
+        return ("lit", key[1][0], key[1][1])
+    if key[0] == "ref":
+        return ("ty", {"tstr": "T", "text": "T", "uint": "I", "int": "I", "nint": "I", "bstr": "B", "bytes": "B"}.get(key[1], "A"))
+    return ("ty", "A")
+
+
+def classes_overlap(a, b):
+    if a[0] == "lit" and b[0] == "lit":
+        return a == b
+    if a[0] == "lit":
+        a, b = b, a
+    if a[0] == "ty" and b[0] == "lit":
+        return a[1] == "A" or a[1] == {"txt": "T", "int": "I", "byt": "B", "flt": "F"}.get(b[1])
+    return a[1] == "A" or b[1] == "A" or a[1] == b[1]
+
+
 def map_shape_clean(S, g):
-    """the member-list shape both validators handle: literal-keyed members, then at most one
-    wildcard member `[?*+] <prelude name> => t`; no group choice"""
+    """the member-list shape both validators handle: literal-keyed members (occurrence none or ?) and wildcard members
+    `[?*+] <prelude name> => t`; a wildcard member may only be followed by members whose keys it cannot match
+    (so at most one wildcard per key class, and a text wildcard comes after the text-keyed members); no group choice"""
     def has_gor(x, d=0):
         if x[0] == "gor":
             return True
@@ -143,23 +165,24 @@ def map_shape_clean(S, g):
         return False
     alts = flat_members(S, g)
     for ms in alts:
-        seen_wild = False
+        wild_seen = []
         for m in ms:
             p = member_parts(m)
             if p is None:
                 return False
             lo, hi, key, cut, val, nm = p
+            kc = key_class(key)
+            if any(classes_overlap(w, kc) for w in wild_seen):
+                return False
             if is_lit_key(key):
-                if seen_wild:
-                    return False
                 if lo > 1 or (hi is not None and hi > 1):
                     return False
             else:
-                if seen_wild or nm:
+                if nm:
                     return False
                 if key is None or key[0] != "ref" or key[1] not in SIMPLE_KEY_TYPES:
                     return False
-                seen_wild = True
+                wild_seen.append(kc)
     return True
 
 
@@ -179,6 +202,21 @@ def arrow_nocut_zone(S, g, docvals):
                         if d[0] == "map" and any(a[0] == kv[0] and a[1] == kv[1] for a, _ in d[1]):
                             return True
     return False
+
+
+def contains_map(S, t, depth=0):
+    """does the type (following rule references) contain a map type"""
+    found = []
+
+    def f(x, ik):
+        if x[0] == "map":
+            found.append(1)
+        if x[0] == "ref" and depth < 4:
+            b = S.body(x[1])
+            if b is not None and S.kind(x[1]) == "type" and contains_map(S, b, depth + 1):
+                found.append(1)
+    walk_types(t, f)
+    return bool(found)
 
 
 def zones(S, v, mode):
@@ -201,8 +239,8 @@ def zones(S, v, mode):
             else:
                 if (lc in ("U", "I") and "F" in doc_classes) or (lc == "F" and doc_classes & {"U", "I"}):
                     z.add("kf-%s-cmp-numeric-class" % P)
-        if k == "ctl" and t[1] in ("and", "within"):
-            z.add("kf-c09-and-within-not-conjunction")
+        if k == "ctl" and t[1] in ("and", "within") and contains_map(S, t[2]) and contains_map(S, t[3]):
+            z.add("kf-c09-and-within-map-operands")
         if k == "ctl" and t[1] in ("eq", "ne"):
             tgt = t[2]
             if not (tgt[0] == "ref" and tgt[1] in STRING_NUMERIC):
@@ -218,7 +256,7 @@ def zones(S, v, mode):
             if (k == "simple" and t[1] in (22, 23)) or (k == "ref" and t[1] in ("undefined", "nil", "null", "any")) or k == "any" or (k == "major" and t[1] == 7):
                 if any(d[0] == "undef" for d in docvals):
                     z.add("kf-c02-undefined-is-null")
-            if k == "ref" and any(d[0] == "tag" and d[1] not in (0, 1) for d in docvals):
+            if k == "ref" and t[1] in PRELUDE and t[1] != "any" and any(d[0] == "tag" and d[1] not in (0, 1) for d in docvals):
                 z.add("kf-c02-tag-vs-name")
     if mode == "cbor":
         dup = any(d[0] == "map" and len({repr(a) for a, _ in d[1]}) < len(d[1]) for d in docvals)
